@@ -102,6 +102,7 @@ bool is_valid_b64(const u8_t* base64_in, int len) {
         else if (tail != 0)
             return false;
     }
-    return true;
+    // a 16-byte key is 22 symbols followed by exactly two '='
+    return tail == 2;
 
 }
